@@ -297,6 +297,9 @@ where
     C: Serialize + DeserializeOwned + std::fmt::Debug + Clone + Send + 'static,
     SF: Fn(&Ctx) -> BoxedStrategy<C> + Send + Sync + 'static,
 {
+    // parts with few (i.e. expensive: whole optimiser runs, CLI processes) cases shrink for a bounded number of steps, so
+    // that a failing tree is reported within minutes rather than at the watchdog
+    let opts = if opts.max_shrink_iters == PartOpts::default().max_shrink_iters && cases_quick <= 5_000 { PartOpts { max_shrink_iters: 300, ..opts } } else { opts };
     let minimise: Minimiser<C> = Arc::new(minimise);
     let oracle: Oracle<C> = Arc::new(oracle);
     let o1 = oracle.clone();
